@@ -69,13 +69,14 @@ class RayFan:
 
         for k, field in enumerate(self.fields):
             for wavelength in self.wavelengths:
+                # blocked rays are left out of the plot, not of the data
                 ex = self.data[f'{field}'][f'{wavelength}']['x']
                 i_x = self.data[f'{field}'][f'{wavelength}']['intensity_x']
-                ex[i_x == 0] = np.nan
+                ex = np.where(i_x == 0, np.nan, ex)
 
                 ey = self.data[f'{field}'][f'{wavelength}']['y']
                 i_y = self.data[f'{field}'][f'{wavelength}']['intensity_y']
-                ey[i_y == 0] = np.nan
+                ey = np.where(i_y == 0, np.nan, ey)
 
                 axs[k, 0].plot(Py, ey, zorder=3, label=f'{wavelength:.4f} µm')
                 axs[k, 0].grid()
